@@ -37,6 +37,11 @@ KNOWN_FINDINGS = [
      "what": "ingress and egress ACCEPT rules of a policy share one chain reached from both hooks: an egress rule of policy "
              "X accepts INGRESS traffic between pods X selects (and vice versa); witness enforces_refuted_cross_talk, "
              "corpus K6e"},
+    {"id": "K5d", "status": "open", "tag": "c16-conflicting-ipblock-flags",
+     "what": "a rule that lists one net both as the cidr of one ipBlock and as an except of another keeps ONE hash:net element "
+             "whose nomatch flag every synchronisation flips (C15's finding K5d): whether addresses of that net are accepted "
+             "depends on how many synchronisations have run - seen by C16 on clusters reached through pod events; attributed "
+             "only to flows with an end inside such a net of a cluster that has the shape"},
     {"id": "K6g", "status": "open", "tag": "c16-egress-accept-skips-ingress",
      "what": "FORWARD jumps to GLX-EGRESS before GLX-INGRESS and every verdict is a terminal ACCEPT: for two pods on one "
              "node the source's egress ACCEPT skips the destination's ingress isolation; witness "
@@ -247,6 +252,32 @@ def gen_cluster(rng, ctx):
     return {"namespaces": nss, "pods": pods, "policies": pols}
 
 
+def nested_block_clusters():
+    """one rule with two or three ipBlock peers that lie inside one another / inside one another's excepts, in every order (all
+    blocks of a rule share one hash:net set; the most specific element containing an address decides): flows from addresses in
+    every region, all of them"""
+    import itertools
+    fams = [
+        [("10.0.0.0/8", ["10.1.0.0/16"]), ("10.1.2.0/24", [])],                       # a block inside another block's except
+        [("10.0.0.0/8", ["10.1.0.0/16"]), ("10.1.0.0/16", ["10.1.2.0/24"]), ("10.1.2.128/25", [])],
+        [("10.0.0.0/8", []), ("10.1.0.0/16", []), ("10.1.2.0/24", [])],                # nested, no excepts
+        [("10.1.0.0/16", ["10.1.1.0/24"]), ("10.0.0.0/8", [])],                       # K6d: an except more specific than the other block
+        [("192.168.0.0/16", ["192.168.1.0/24"]), ("192.168.1.64/26", ["192.168.1.96/27"])],
+    ]
+    out = []
+    for fi, fam in enumerate(fams):
+        for perm in itertools.permutations(fam):
+            for direction in ("ingress", "egress"):
+                peers = [{"cidr": cd, "except": list(ex)} for cd, ex in perm]
+                pol = {"ns": "ns1", "name": "pol0", "sel": {"app": "web"}, "types": ["Ingress"] if direction == "ingress" else ["Egress"],
+                       "ingress": [{"ports": [], "peers": peers}] if direction == "ingress" else [],
+                       "egress": [{"ports": [], "peers": peers}] if direction == "egress" else []}
+                out.append({"namespaces": [{"name": "ns1", "labels": {}}],
+                            "pods": [{"ns": "ns1", "name": "p0", "labels": {"app": "web"}, "ip": "172.16.0.5", "node": "node1"}],
+                            "policies": [pol]})
+    return out
+
+
 def cluster_blocks(c):
     out = []
     for p in c["policies"]:
@@ -384,6 +415,27 @@ def case_expr(c, o1, o2, flows):
                                            clist(cflow(f) for f in flows))
 
 
+K5D_TAG = "c16-conflicting-ipblock-flags"
+
+
+def k5d_nets(c):
+    """the nets (lo, hi) that one rule lists both as the cidr of an ipBlock and as an except of another (K5d's shape)"""
+    out = []
+    for p in c["policies"]:
+        for r in p["ingress"] + p["egress"]:
+            cids, exs = set(), set()
+            for q in r["peers"]:
+                if q.get("cidr"):
+                    a, l = parse_cidr(q["cidr"])
+                    cids.add(((a >> (32 - l)) << (32 - l) if l else 0, l))
+                    for e in q.get("except", []):
+                        ea, el = parse_cidr(e)
+                        exs.add(((ea >> (32 - el)) << (32 - el) if el else 0, el))
+            for b, l in cids & exs:
+                out.append((b, b + (1 << (32 - l)) - 1))
+    return out
+
+
 def tags_of_mask(m):
     return [CLASSES[i][1] for i in range(6) if m >> i & 1]
 
@@ -430,6 +482,10 @@ def run(ctx):
         c = gen_cluster(rng, ctx)
         clusters.append(c)
         meta.append({"kind": "random", "flows": gen_flows(rng, c, not ctx.quick, cap)})
+    for c in nested_block_clusters():
+        clusters.append(c)
+        meta.append({"kind": "random", "flows": gen_flows(rng, c, True, 0)})
+        ctx.dist("cluster:nested-ipblocks")
     # the same clusters reached through pod events after the synchronisation (incremental path), verdicts only
     n_ev = 60 if ctx.quick else 400
     for c in [c for c, m in zip(clusters, meta) if m["kind"] == "random" and c["policies"]][:n_ev]:
@@ -515,6 +571,16 @@ def run(ctx):
                       "divergence(s) %s" % "+".join(tags),
                       {"cluster": clusters[i], "flow": f, "how": "bin/check C16 --replay <this file>"}, found=True,
                       theorem="enforces", tags=tags)
+    def k5d(u):
+        nets = k5d_nets(clusters[u[0]])
+        return any(lo <= s2ip(u[1][end]) <= hi for lo, hi in nets for end in ("src", "dst"))
+    flipped = [u for u in unexplained if k5d(u)]
+    unexplained = [u for u in unexplained if not k5d(u)]
+    for i, f, why in flipped[:1]:
+        ctx.violation("monitor", "installed rules and NetworkPolicy semantics disagree on a flow whose address lies in a net that one "
+                      "rule lists both as an ipBlock and as an except (the element's nomatch flag flips with every synchronisation)",
+                      {"cluster": clusters[i], "flow": f, "why": why, "how": "bin/check C16 --replay <this file>"},
+                      found=True, theorem="enforces", tags=[K5D_TAG])
     real = [u for u in unexplained if not u[2]["reference_agrees"]]
     for i, f, why in real[:5]:
         ctx.violation("monitor", "installed rules and NetworkPolicy semantics disagree on a flow in a way none of the known "
